@@ -239,6 +239,7 @@ func checkC17(c *Ctx) {
 	checkPathRequiredLast(c, "C17.R6.path-required", pk)
 	checkNamePatterns(c, "C17.R4.name-patterns", pk)
 	checkListSplits(c, "C17.R6.list-splits", pk)
+	checkMultiNameFields(c, "C17.R6.multi-name-fields", pk)
 	checkBuilderFields(c, "C17.R6.builder-fields", pk)
 	checkArgumentRoles(c, "C17.R6.argument-roles", pk, "codescan", 3)
 	checkAliasExpansionGuard(c, "C17.R1.alias-recursion", pk)
@@ -1246,5 +1247,73 @@ func checkListSplits(c *Ctx, rule string, pk *packages.Package) {
 	}
 	if n == 0 {
 		c.Unk(rule, "codescan › strings.Split calls", "", "none found")
+	}
+}
+
+
+// checkMultiNameFields: parseJSONTag names a field after the first identifier of its declaration; every
+// caller that uses that name for a field it got from go/types must take the default from the types.Var
+// (`A, B string` declares two fields).
+func checkMultiNameFields(c *Ctx, rule string, pk *packages.Package) {
+	c.Rule(rule, "every function that names a field with parseJSONTag's first result re-reads the default name from the types.Var it describes", 3)
+	info := pk.TypesInfo
+	n := 0
+	for _, fd := range load.AllFuncs(pk) {
+		fd := fd
+		var nameObj types.Object
+		ast.Inspect(fd.Body, func(nd ast.Node) bool {
+			as, ok := nd.(*ast.AssignStmt)
+			if !ok || len(as.Rhs) != 1 || len(as.Lhs) < 2 {
+				return true
+			}
+			if call, ok := as.Rhs[0].(*ast.CallExpr); ok {
+				if fn := goan.Callee(info, call); fn != nil && fn.Name() == "parseJSONTag" {
+					if id, ok := as.Lhs[0].(*ast.Ident); ok && id.Name != "_" {
+						nameObj = info.ObjectOf(id)
+					}
+				}
+			}
+			return true
+		})
+		if nameObj == nil {
+			continue
+		}
+		// only functions that walk types.Struct fields (st.Field(i))
+		walks := false
+		ast.Inspect(fd.Body, func(nd ast.Node) bool {
+			if call, ok := nd.(*ast.CallExpr); ok {
+				if se, ok := call.Fun.(*ast.SelectorExpr); ok && se.Sel.Name == "Field" && goan.NamedPath(info.TypeOf(se.X)) == "go/types.Struct" {
+					walks = true
+				}
+			}
+			return true
+		})
+		if !walks {
+			continue
+		}
+		// uses of the name other than tests: does it name something?
+		n++
+		okOwn := false
+		ast.Inspect(fd.Body, func(nd ast.Node) bool {
+			as, ok := nd.(*ast.AssignStmt)
+			if !ok || len(as.Lhs) != 1 || len(as.Rhs) != 1 {
+				return true
+			}
+			id, ok := as.Lhs[0].(*ast.Ident)
+			if !ok || info.ObjectOf(id) != nameObj {
+				return true
+			}
+			if call, ok := ast.Unparen(as.Rhs[0]).(*ast.CallExpr); ok && len(call.Args) == 0 {
+				if se, ok := call.Fun.(*ast.SelectorExpr); ok && se.Sel.Name == "Name" && goan.NamedPath(info.TypeOf(se.X)) == "go/types.Var" {
+					okOwn = true
+				}
+			}
+			return true
+		})
+		c.Check(okOwn, rule, "codescan."+load.FuncName(fd)+" › each field of a multi-name declaration keeps its own name", c.posOf(pk, fd.Pos()), "default name re-read from the types.Var",
+			"the name comes only from parseJSONTag (first identifier of the declaration): for `A, B string` both fields are published as A and B is lost")
+	}
+	if n < 3 {
+		c.Unk(rule, "codescan › callers of parseJSONTag that name fields", "", fmt.Sprintf("%d found, expected the model, parameter and response builders", n))
 	}
 }
